@@ -258,7 +258,7 @@ INVALID = [
     ('derive-too-many', ('DAB',), 'ValueError', _inv_derive_too_many, ['dw']),
     ('derive-on-base', ('DA',), 'TypeError', _inv_derive_on_base, ['dz']),
     ('derive-nonunit', ('DAB',), 'TypeError', _inv_derive_nonunit, ['dv']),
-    ('derive-empty-symbol', ('DAB', 'a1'), 'ValueError', _inv_derive_empty_symbol, ['', 'a1/b0']),
+    ('derive-empty-symbol', ('DAB', 'a1'), 'ValueError', _inv_derive_empty_symbol, ['']),
     ('derive-dup-symbol', ('DAB',), 'ValueError', _inv_derive_dup_symbol, []),
 ]
 
